@@ -1583,3 +1583,44 @@ def rule_start_access_keeps_record(ctx):
             ctx.holds("STACCOWN", key, f.where(), "the access record handed to the start-access routine is left to the caller", nontrivial=True)
     ctx.floor("STACCOWN", 8, n, "(start-access routines of the special-element kinds)")
     return n
+
+
+def rule_member_count_source(ctx):
+    """LIVECOUNT (C08): the number of members of an attached Vgroup is `vg->nvelt`, kept current by every insert and delete.  The
+    instance record has a field of almost the same name (`vginstance_t.nentries`), filled in once when an existing Vgroup is
+    first attached and never again.  Nothing that reports a member count reads the instance's copy: after any edit in the
+    current attach session it is stale, and Vinquire would disagree with Vntagrefs and with the member list itself."""
+    prog = ctx.prog
+    n = 0
+    for f in prog.lib_funcs():
+        if not f.rel.startswith("hdf/src/v"):
+            continue
+        k = 0
+        for _b, _i, s, x in f.nodes(True):
+            # reads only
+            if x[0] == "asg" and x[1] == "=":
+                r = x[3]
+                for y in walk(r, True):
+                    if y[0] == "mem" and y[2] == "nentries" and y[3] in ("vginstance_t", "vg_instance_struct", "vginstance"):
+                        k += 1
+                        n += 1
+                        ctx.violated("LIVECOUNT", "LIVECOUNT:%s#%d" % (f.name, k), f.where(s.get("l", f.line)), "a value is taken from the Vgroup instance's `nentries`, which is set when the Vgroup is first attached and not kept up to date: after an insert or delete it is stale")
+            elif x[0] == "ret" and x[1] is not None:
+                for y in walk(x[1], True):
+                    if y[0] == "mem" and y[2] == "nentries" and "instance" in str(y[3]):
+                        k += 1
+                        n += 1
+                        ctx.violated("LIVECOUNT", "LIVECOUNT:%s#%d" % (f.name, k), f.where(s.get("l", f.line)), "the Vgroup instance's stale `nentries` is returned")
+    # the routines that report a count read the live one
+    for name in ("Vinquire", "Vntagrefs", "Ventries"):
+        f = prog.func(name)
+        if f is None:
+            continue
+        n += 1
+        live = any(x[0] == "mem" and x[2] == "nvelt" for _b, _i, _s, x in f.nodes(True))
+        if live:
+            ctx.holds("LIVECOUNT", "LIVECOUNT:%s" % name, f.where(), "the member count is read from vg->nvelt", nontrivial=True)
+        else:
+            ctx.violated("LIVECOUNT", "LIVECOUNT:%s" % name, f.where(), "the routine reports a member count without reading vg->nvelt")
+    ctx.floor("LIVECOUNT", 3, n, "(routines that report a Vgroup's member count)")
+    return n
